@@ -14,7 +14,7 @@ UNIT = dict(
             ("sub", "R10-iter", r"statuses\s*\.iter\(\)\s*\.position\(\|s\| \*s == HealthStatus::Healthy\)\s*\.or_else\(\|\| statuses\.iter\(\)\.position\(\|s\| s\.is_usable\(\)\)\)",
              "(match vx_position_healthy(&statuses) { Some(vx_i) => Some(vx_i), None => vx_position_usable(&statuses) })", 1),
             ("sub", "R10-iter", r"statuses\.iter\(\)\.position\(\|s\| s\.is_usable\(\)\)", "vx_position_usable(&statuses)", 1),
-            ("sub", "R10-iter", r"let usable: Vec<usize> = statuses\s*\.iter\(\)\s*\.enumerate\(\)\s*\.filter\(\|\(_, s\)\| s\.is_usable\(\)\)\s*\.map\(\|\(i, _\)\| i\)\s*\.collect\(\);", "let usable: Vec<usize> = vx_usable_indices(&statuses);", 1),
+            ("sub", "R10-iter", r"let usable: Vec<usize> = statuses\s*\.iter\(\)\s*\.enumerate\(\)\s*\.filter\(\|\(_, s\)\| s\.is_(usable|healthy)\(\)\)\s*\.map\(\|\(i, _\)\| i\)\s*\.collect\(\);", r"let usable: Vec<usize> = vx_\1_indices(&statuses);", 1),
             ("sub", "R6-closure-call", r"selector\(&statuses\)", "selector.vx_call(&statuses)", 1),
         ]),
         "HealthCheckWrapper::get_healthy": dict(file="wrapper", rules=[
